@@ -36,7 +36,8 @@ func (partialFam) Exec(c core.CaseIn, rng *rand.Rand, emit func(cas, conc, obs a
 }
 
 var psTypeSrc = map[string]string{"scalar": "int", "slice": "[]string", "map": "map[string]int", "pointer": "*int", "foreignStd": "time.Time", "foreignLocal": "v.V",
-	"error": "error", "iface": "fmt.Stringer", "sub": "Sub2"}
+	"error": "error", "iface": "fmt.Stringer", "sub": "Sub2",
+	"subB": "Sub2"} // subB: a second field of the type that "sub" has - never replaced
 
 var psTagSrc = map[string]string{"none": "", "json": `json:"f%d,omitempty"`, "dotted": `json:"meta.name%d,omitempty" yaml:"x.y"`, "odd": `any text: "q" 100%%v @name 'x' %d é`}
 
@@ -50,7 +51,7 @@ func psSources(j int, pc psCase) (origin, partial, probe string) {
 		clause = fmt.Sprintf("model%d", j)
 	}
 	fmt.Fprintf(&o, "// Package %s holds the origin struct.\npackage %s\n\nimport (\n\t\"fmt\"\n\t\"time\"\n\n\t\"example.com/ps/v\"\n)\n\nvar (\n\t_ fmt.Stringer\n\t_ time.Time\n\t_ v.V\n)\n\n", clause, clause)
-	o.WriteString("// Sub2 is a nested origin struct.\ntype Sub2 struct {\n\tA int\n\tB string\n}\n\n// Scalar is not a struct.\ntype Scalar int\n\n// T is the origin.\ntype T struct {\n")
+	o.WriteString("// Sub2 is a nested origin struct.\ntype Sub2 struct {\n\tF1 int\n\tF2 string\n}\n\n// Scalar is not a struct.\ntype Scalar int\n\n// T is the origin.\ntype T struct {\n")
 	for i, k := range pc.Origin {
 		tag := psTagSrc[pc.Tags[i]]
 		if strings.Contains(tag, "%") && pc.Tags[i] != "none" {
@@ -90,9 +91,9 @@ func psSources(j int, pc psCase) (origin, partial, probe string) {
 		}
 		if hasSub && pc.Replace != "none" {
 			if grouped {
-				fmt.Fprintf(&p, "\t// +gengo:partialstruct\n\t// +gengo:partialstruct:omit=B\n\tsub2 o%d.Sub2\n\n", j)
+				fmt.Fprintf(&p, "\t// +gengo:partialstruct\n\t// +gengo:partialstruct:omit=F2\n\tsub2 o%d.Sub2\n\n", j)
 			} else {
-				fmt.Fprintf(&p, "// +gengo:partialstruct\n// +gengo:partialstruct:omit=B\ntype sub2 o%d.Sub2\n\n", j)
+				fmt.Fprintf(&p, "// +gengo:partialstruct\n// +gengo:partialstruct:omit=F2\ntype sub2 o%d.Sub2\n\n", j)
 			}
 		}
 		p.WriteString(ind + "// +gengo:partialstruct\n")
@@ -365,7 +366,7 @@ func psModule(from, to int, parsed []psCase, obsOf, concOf []map[string]any) err
 			if parsed[j].ErrShape == "none" {
 				cur := files[fmt.Sprintf("o%d/o.go", j)]
 				e := strings.Replace(cur, "type T struct {\n", "type T struct {\n\t// F0 was dropped later.\n\tF0 bool\n", 1)
-				e = strings.Replace(e, "type Sub2 struct {\n\tA int\n\tB string\n}", "type Sub2 struct {\n\tA int\n\tB string\n\tC0 bool\n}", 1)
+				e = strings.Replace(e, "type Sub2 struct {\n\tF1 int\n\tF2 string\n}", "type Sub2 struct {\n\tF1 int\n\tF2 string\n\tC0 bool\n}", 1)
 				earlier[fmt.Sprintf("o%d/o.go", j)] = e
 			}
 		}
